@@ -201,3 +201,48 @@ def po_mdd_double_max(S):
     S.check("max_draw_down==double-maximum-definition", S.eq(r, best))
     S.check("spec-MDD==double-maximum-definition", S.eq(MDD(nv, len(vals) - 1), best))
     S.check("rescaling-invariant", S.eq(calc.max_draw_down(nv * c), r) or abs(calc.max_draw_down(nv * c) - r) < 1e-12)
+
+
+@proof("C20", "performance_metrics/the-REPORTED-figures-equal-their-definitions", strength="B", config={"bounded_samples": {"quick": 300, "thorough": 5000}})
+def po_performance_metrics(S):
+    """bounded stand-in: performance_metrics (the function a backtest reports through) on a time-indexed net-value series — volatile or
+    almost flat, with a volatile or a very smooth benchmark — against plain-float recomputation from the series: drawdown by the double
+    maximum (the first sample may be the peak), returns from the end points, volatility / Sharpe / alpha / beta as in series-metrics"""
+    import pandas as pd
+    from demeter.result.metrics.core import performance_metrics
+    from demeter.result.metrics._typing import MetricEnum
+    n = S.int("bars", 3, 30)
+    minutes = [1, 5, 60, 1440, 7 * 1440, 36 * 60][S.int("interval", 0, 5)]
+    smooth_b = S.bool("smooth_benchmark")
+    v0 = S.flt("first_value", 10, 10 ** 6)
+    steps = [S.flt(f"step{i}", 0.7, 1.3) for i in range(30)][:n - 1]
+    bsteps = [S.flt(f"bstep{i}", 0.8, 1.25) for i in range(30)][:n - 1]
+    if smooth_b:
+        bsteps = [1 + (b - 1) * 1e-5 for b in bsteps]           # a stable pair / interest-bearing index: per-bar moves of a few 1e-6
+    vals, bvals = [v0], [1000.0]
+    for i in range(n - 1):
+        vals.append(vals[-1] * steps[i])
+        bvals.append(bvals[-1] * bsteps[i])
+    idx = pd.date_range("2024-01-01", periods=n, freq=f"{minutes}min")
+    rf = S.flt("risk_free", 0, 0.2)
+    interval = minutes / 1440
+    days = interval * n
+    rets, brets = _direct_returns(vals), _direct_returns(bvals)
+    S.assume(_std(rets) > 1e-12 and _std(brets) > 0, "non-degenerate series")
+    S.assume(abs(math.log(vals[-1] / vals[0])) * 365 / days < 300 and abs(math.log(bvals[-1] / bvals[0])) * 365 / days < 300, "annualised figures representable")
+    out = performance_metrics(pd.Series(vals, index=idx), rf, pd.Series(bvals, index=idx))
+    best = 0.0
+    for i in range(n):
+        for j in range(i, n):
+            best = max(best, (vals[i] - vals[j]) / vals[i])
+    S.check("max_draw_down==largest-relative-decline-from-a-running-peak", abs(out[MetricEnum.max_draw_down] - best) <= 1e-9)
+    S.check("return_rate==final/init-1", S.eq(out[MetricEnum.return_rate] + 1, vals[-1] / vals[0]))
+    apy = (vals[-1] / vals[0]) ** (365 / days) - 1
+    S.check("annualized_return==(final/init)^(365/days)-1", S.eq(out[MetricEnum.annualized_return] + 1, apy + 1))
+    vol = _std([r - 1 for r in rets]) * math.sqrt(365 / interval)
+    S.check("volatility==sample-std*sqrt(365/interval)", S.eq(out[MetricEnum.volatility], vol))
+    S.check("sharpe==(annualised-rf)/volatility", abs(out[MetricEnum.sharpe_ratio] - (apy - rf) / vol) <= 1e-7 * (1 + abs((apy - rf) / vol)))
+    want_beta = _cov(rets, brets) / _cov(brets, brets)
+    bapy = (bvals[-1] / bvals[0]) ** (365 / days) - 1
+    S.check("beta==cov/var(also-for-a-smooth-benchmark)", abs(out[MetricEnum.beta] - want_beta) <= 1e-6 * (1 + abs(want_beta)))
+    S.check("alpha==apy-beta*benchmark_apy", abs(out[MetricEnum.alpha] - (apy - want_beta * bapy)) <= 1e-6 * (1 + abs(apy) + abs(want_beta * bapy)))
